@@ -29,6 +29,14 @@ def run(prog, chk):
     C03.real_svg_scan(prog, chk)
     C03.reader_defaults(prog, chk)
     C03.no_precheck(prog, chk)
+    # the second pass is a pass-through of the first pass' output: everything C03 needs for a verbatim copy
+    C03.qualified_names(prog, chk)
+    C03.attrmap_keys_verbatim(prog, chk)
+    C03.writer_is_read_only(prog, chk)
+    C03.top_level_predicate(prog, chk)
+    C03.inner_events_guard(prog, chk)
+    C03.passthrough_str_ops(prog, chk)
+    C02.no_double_hyphen_literals(prog, chk)  # an ill-formed generated comment makes the second pass fail
     generated_comment_ops(prog, chk)
     normalisation_idempotent(prog, chk)
     # findings of C02/C03 that do not break the fixed point are not obligations of this property
